@@ -1,6 +1,7 @@
 import Mitx.Model.ParserState
 import Mitx.Parser.UsageMain
 import Mitx.Parser.Erase
+import Mitx.Lemmas.ParserHeap
 /-! # C10 — reported name usage is exact and parsing is independent of parse history -/
 namespace C10
 open C03 PS
@@ -114,5 +115,34 @@ theorem spaces_share_cache (st : St) (s s' : String) (h : stripSpaces s = stripS
     `reset_storage` would produce), so `scratch_empty` is a real obligation, not decoration -/
 example : ((rawParse { cache := [], scratch := [(Kind.var, "stale")] } "x").2.map (·.2)) = some [(Kind.var, "stale"), (Kind.var, "x")] := by
   decide +kernel
+
+/-! ## the mechanism: usage sets are shared objects, `reset_storage` rebinds -/
+
+/-- **Object-level history independence.** In the object-identity model — parse actions mutate the set objects bound to
+    the parser, a `MathExpression` holds those very objects, `reset_storage` binds fresh ones — what an observer reads
+    after any history equals what a fresh parser yields. (Refinement of the value-level machine above.) -/
+theorem object_history_independent (h : List String) (s : String) :
+    view (PH.absOut (PH.parse .rebind (PH.runHistory .rebind PH.init h) s).1 (PH.parse .rebind (PH.runHistory .rebind PH.init h) s).2)
+      = view (parse init s).2 := by
+  obtain ⟨hw, ha⟩ := PH.history_refines PH.wf_init h
+  obtain ⟨_, _, ho⟩ := PH.parse_refines hw s
+  rw [ho, ha]
+  exact history_independent h s
+
+/-- **Cached expressions are never altered by later parses**: the names read through a cached expression stay the same
+    whatever string is parsed next — because the reset *rebinds* the parser's sets instead of clearing them. -/
+theorem cache_alias_safe {st : PH.HSt} (hw : PH.WF st) (k : String) (e : T × Nat) (he : (k, e) ∈ st.cache) (s : String) :
+    PH.readExpr (PH.parse .rebind st s).1 e = PH.readExpr st e :=
+  PH.cached_stable hw k e he s
+
+theorem cache_alias_safe_history (h : List String) : PH.WF (PH.runHistory .rebind PH.init h) :=
+  (PH.history_refines PH.wf_init h).1
+
+/-- the rewrite `reset_storage → .clear()` is refuted by the model: the expression just cached for `"x"` loses its names
+    (it aliases the cleared object), whereas with rebinding it keeps them -/
+example : let st := (PH.parse .clear PH.init "x").1
+    st.cache.map (fun p => (PH.readExpr st p.2).2) = [[]] := by decide +kernel
+example : let st := (PH.parse .rebind PH.init "x").1
+    st.cache.map (fun p => (PH.readExpr st p.2).2) = [[(Kind.var, "x")]] := by decide +kernel
 
 end C10
